@@ -99,3 +99,135 @@ apply: ole_trans (ole_ominl_map _ hbm) _.
 exact: (ole_ominl_map (fun tau => cost_of I beta tau) htm).
 Qed.
 End Witness.
+
+(* ------------------------------------------------------------------ structure of the active sets *)
+Lemma filter_prefix (p : pred nat) n :
+  (forall i j, i <= j -> j < n -> p j -> p i) ->
+  [seq i <- iota 0 n | p i] = iota 0 (count p (iota 0 n)).
+Proof.
+elim: n => [|n IH] H //.
+rewrite -addn1 iotaD filter_cat count_cat /= add0n.
+have H' : forall i j, i <= j -> j < n -> p j -> p i.
+  by move=> i j hij hj; apply: H => //; exact: ltnW.
+case pn: (p n); last first. Show. by rewrite cats0 addn0 IH.
+have hall : all p (iota 0 n).
+  apply/allP => i; rewrite mem_iota add0n /= => hi.
+  by apply: (H i n) => //; exact: ltnW.
+rewrite (all_filterP hall); move: hall; rewrite all_count size_iota => /eqP->.
+by rewrite -[iota 0 n ++ _]/(iota 0 n ++ iota (0 + n) 1) -iotaD.
+Qed.
+
+Section Structure.
+Variable I : inst.
+Let N := nreads I.
+Let f i := r_first (rd I i).
+Let l i := r_last (rd I i).
+
+Definition seen c := count (fun i => f i < c) (iota 0 N).
+Definition nnew c := count (fun i => f i == c) (iota 0 N).
+Definition kept c := [seq i <- iota 0 N | (f i < c) && (c <= l i)].
+
+Lemma f_le_l i : f i <= l i.
+Proof. by rewrite /l /r_last leq_addr. Qed.
+
+Lemma seenS c : seen c.+1 = seen c + nnew c.
+Proof.
+rewrite /seen /nnew -count_predUI.
+rewrite [X in _ = _ + X](@eq_count _ _ pred0) ?count_pred0 ?addn0.
+  by apply: eq_count => i /=; rewrite ltnS leq_eqVlt orbC.
+by move=> i /=; case: ltngtP.
+Qed.
+
+Lemma seen_le c : seen c <= N.
+Proof. by rewrite /seen -[X in _ <= X](size_iota 0 N) count_size. Qed.
+
+Lemma activeE c : active I c = [seq i <- iota 0 N | (f i <= c) && (c <= l i)].
+Proof. by []. Qed.
+
+Lemma mem_active c i : (i \in active I c) = [&& i < N, f i <= c & c <= l i].
+Proof. by rewrite activeE mem_filter mem_iota add0n /= andbC. Qed.
+
+Lemma kept_mask c : mask (fmask I c) (active I c) = kept c.+1.
+Proof.
+rewrite /fmask -filter_mask activeE -filter_predI; apply: eq_in_filter => i.
+rewrite mem_iota add0n /= => hi; rewrite mem_active hi /= ltnS.
+case h1: (f i <= c) => /=; last by rewrite andbF.
+rewrite (leq_trans h1 (leqnSn c)) /=.
+by case h2: (c < l i); rewrite ?andbF //= (ltnW h2).
+Qed.
+
+Lemma fmask_count c : count id (fmask I c) = size (kept c.+1).
+Proof. by rewrite -kept_mask size_mask // size_map. Qed.
+
+Lemma bw_kept c : bw I c = size (kept c).
+Proof.
+case: c => [|c] /=.
+  by rewrite /kept size_filter (@eq_count _ _ pred0) ?count_pred0.
+rewrite activeE count_filter size_filter; apply: eq_in_count => i.
+rewrite mem_iota add0n /= => hi; rewrite mem_active hi /= ltnS.
+case h1: (f i <= c) => /=; last by rewrite andbF.
+rewrite (leq_trans h1 (leqnSn c)) /=.
+by case h2: (c < l i); rewrite ?andbF //= (ltnW h2).
+Qed.
+
+Hypothesis Hs : sorted_reads I.
+
+Lemma f_mono i j : i <= j -> j < N -> f i <= f j.
+Proof.
+move=> hij hj; have hi : i < N := leq_ltn_trans hij hj.
+have e k : k < N -> f k = nth 0 [seq r_first r | r <- i_reads I] k.
+  by move=> hk; rewrite (nth_map dflt_read).
+rewrite (e _ hi) (e _ hj).
+apply: (sorted_leq_nth leq_trans leqnn 0 Hs) => //; rewrite inE size_map //.
+Qed.
+
+Lemma seen_lt c i : i < N -> (f i < c) = (i < seen c).
+Proof.
+move=> hi.
+have hp : [seq i <- iota 0 N | f i < c] = iota 0 (seen c).
+  apply: filter_prefix => a b hab hb; apply: leq_ltn_trans; exact: f_mono.
+have : (i \in [seq i <- iota 0 N | f i < c]) = (i \in iota 0 (seen c)) by rewrite hp.
+by rewrite mem_filter !mem_iota !add0n /= hi andbT.
+Qed.
+
+Lemma active_split c : active I c = kept c ++ iota (seen c) (nnew c).
+Proof.
+have hab : seen c + nnew c <= N by rewrite -seenS seen_le.
+have hA : active I c = [seq i <- iota 0 N | predI (fun i => c <= l i) (fun i => i < seen c + nnew c) i].
+  rewrite activeE; apply: eq_in_filter => i; rewrite mem_iota add0n /= => hi.
+  by rewrite andbC -seenS -seen_lt // ltnS.
+have hK : kept c = [seq i <- iota 0 N | predI (fun i => c <= l i) (fun i => i < seen c) i].
+  apply: eq_in_filter => i; rewrite mem_iota add0n /= => hi.
+  by rewrite andbC -seen_lt.
+rewrite hA hK !filter_predI.
+rewrite -[in LHS](add0n (seen c + nnew c)) filter_iota_ltn // -[in RHS](add0n (seen c)) filter_iota_ltn ?seen_le //.
+rewrite iotaD filter_cat add0n; congr (_ ++ _).
+apply/all_filterP/allP => i; rewrite mem_iota => /andP[h1 h2].
+have hi : i < N := leq_trans h2 hab.
+apply: leq_trans (f_le_l i); rewrite leqNgt seen_lt // -leqNgt.
+exact: h1.
+Qed.
+
+Lemma size_active c : size (active I c) = size (kept c) + nnew c.
+Proof. by rewrite active_split size_cat size_iota. Qed.
+
+Hypothesis Hl : forall i, i < N -> l i < i_ncols I.
+
+Lemma active_last : active I (i_ncols I) = [::].
+Proof.
+rewrite activeE; apply/eqP; rewrite -[_ == _]negbK -has_filter; apply/hasPn => i.
+rewrite mem_iota add0n /= => hi; rewrite negb_and orbC -ltnNge (Hl hi) //.
+Qed.
+
+Lemma kept_last : kept (i_ncols I) = [::].
+Proof.
+rewrite /kept; apply/eqP; rewrite -[_ == _]negbK -has_filter; apply/hasPn => i.
+rewrite mem_iota add0n /= => hi; rewrite negb_and orbC -ltnNge (Hl hi) //.
+Qed.
+
+Lemma seen_last : seen (i_ncols I) = N.
+Proof.
+rewrite /seen -[RHS](size_iota 0 N); apply/eqP; rewrite -all_count; apply/allP => i.
+rewrite mem_iota add0n /= => hi; exact: leq_ltn_trans (f_le_l i) (Hl hi).
+Qed.
+End Structure.
